@@ -176,3 +176,182 @@ ASSUMPTIONS = [
     "the slot list of a Parameter class (_all_slots_, computed by the metaclass at run time) is supplied by the contract for the Number family",
     "_setup_params/_instantiate_param (deep copy at construction), metaclass copy-on-write and per_instance=False are covered by the bounded layer only",
 ]
+
+
+# ======================================================================================
+# Parameters._setup_params — what the constructor pins on the instance, and the keyword route
+# ======================================================================================
+def setup_params_contract(prefixes=None):
+    from contracts import dispatch_model as dm
+    from pyvc.objects import sym_field
+    holder = {}
+
+    def configure(I):
+        I.sym_fields = {"instantiate", "constant", "allow_refs", "owner", "name"}
+        # the as_uninitialized wrapper is verified by its own contract (contracts/c05.py)
+        I.lib["deco:as_uninitialized"] = lambda I, st, fv, args, kwargs, ctx: None
+
+        def instantiate_param(I, st, fv, args, kwargs, ctx):
+            p = I.term(args[0])
+            deep = kwargs.get("deepcopy", args[1] if len(args) > 1 else Conc(True))
+            key = "called_deep" if I.truth(deep) is True else ("called_ref" if I.truth(deep) is False else None)
+            if key is None:
+                raise OutOfReach("_instantiate_param with symbolic deepcopy flag")
+            st.ghost[key] = z3.Store(st.ghost[key], p, True)
+            return [(st, Conc(None))]
+        I.contracts["Parameters._instantiate_param"] = instantiate_param
+
+        def cls_parameters(I, st, fv, args, kwargs, ctx):
+            return [(st, st.ghost["objects_dict"])]
+        I.contracts["Parameters._cls_parameters"] = cls_parameters
+
+        def gpd(I, st, fv, args, kwargs, ctx):
+            return [(st, TupV([st.ghost["desc"], Sym(I.U.fresh("owning_class"))]))]
+        I.contracts["ParameterizedMetaclass.get_param_descriptor"] = gpd
+
+        def resolve_ref(I, st, fv, args, kwargs, ctx):
+            U = I.U
+            ref, deps, val2, is_async = (Sym(U.fresh(n)) for n in ("ref", "ref_deps", "resolved", "is_async"))
+            st.pc.append(S.is_bool(I, is_async.t))
+            st.ghost["resolved"] = (ref, deps, val2, is_async)
+            q = st.fork()
+            return [(st, TupV([ref, deps, val2, is_async])), (q, Raise("$User", origin="_resolve_ref"))]
+        I.contracts["Parameters._resolve_ref"] = resolve_ref
+
+        def setattr_hook(I, st, ref, attr, v, ctx):
+            if ref == holder.get("self") and attr == "x":
+                st.ghost["sets"] = st.ghost.get("sets", []) + [v]
+                q1 = st.fork()
+                return [(st, Conc(None)), (q1, Raise("ValueError", origin="setattr"))]
+            return None
+        I.setattr_hook = setattr_hook
+
+    def not_name(k):
+        return z3.Not(z3.And(vm.ty(k) == vm.TAG["str"], vm.strv(k) == z3.StringVal("name")))
+
+    def cond_deep(I, st, k):
+        od = st.heap[st.ghost["objects_dict"].oid]
+        p = z3.Select(od.vals, k)
+        return z3.And(vm.truthy(z3.Select(sym_field(I, st, "instantiate"), p)), not_name(k))
+
+    def cond_ref(I, st, k):
+        od = st.heap[st.ghost["objects_dict"].oid]
+        p = z3.Select(od.vals, k)
+        return z3.And(z3.Not(vm.truthy(z3.Select(sym_field(I, st, "instantiate"), p))),
+                      vm.truthy(z3.Select(sym_field(I, st, "constant"), p)), not_name(k))
+
+    def setup(I, st):
+        U = I.U
+        selfo = I.alloc_obj(st, "Parameterized", lazy=True, label="self")
+        holder["self"] = selfo
+        cls = I.alloc_obj(st, "ParameterizedMetaclass", lazy=True, label="cls")
+        cpriv = I.alloc_obj(st, "_ClassPrivate", lazy=True, label="cls.private")
+        st.heap[cpriv.oid].fields["explicit_no_refs"] = I.alloc_list(st, U.fresh_seq("explicit_no_refs"))
+        st.heap[cls.oid].fields["_param__private"] = cpriv
+        par = I.alloc_obj(st, "Parameters", lazy=False, label="self_")
+        st.heap[par.oid].fields.update({"cls": cls, "self": selfo})
+        od = I.alloc_dict(st, keys=U.fresh_seq("pnames"), vals=z3.Const("pobjs", z3.ArraySort(vm.V, vm.V)))
+        st.ghost["objects_dict"] = od
+        st.ghost["called_deep"] = z3.K(vm.V, False)
+        st.ghost["called_ref"] = z3.K(vm.V, False)
+        st.ghost["desc"] = Sym(U.fresh("descriptor"))
+        holder["k"] = U.fresh("some_param_name")
+        # touch the field maps so that they exist before the loops havoc the heap
+        sym_field(I, st, "instantiate"); sym_field(I, st, "constant")
+        val = Sym(U.fresh("kwarg_value"))
+        fv = I.bound_method(par, I.src.find_method("Parameters", "_setup_params"))
+        return fv, [], {"x": val}, {"od": od, "val": val, "symbols": {}}
+
+    def dicts(I, st):
+        dc, rf = st.env.get("params_to_deepcopy"), st.env.get("params_to_ref")
+        return st.heap[dc.oid], st.heap[rf.oid]
+
+    def inv_collect(I, st, pre):
+        k = holder["k"]
+        od = st.heap[st.ghost["objects_dict"].oid]
+        dc, rf = dicts(I, st)
+        u = z3.Unit(k)
+        seen = z3.Contains(pre.seq, u)
+        return z3.And(
+            z3.Implies(seen, z3.And(z3.Contains(dc.keys, u) == cond_deep(I, st, k),
+                                    z3.Contains(rf.keys, u) == cond_ref(I, st, k),
+                                    z3.Implies(cond_deep(I, st, k), z3.Select(dc.vals, k) == z3.Select(od.vals, k)),
+                                    z3.Implies(cond_ref(I, st, k), z3.Select(rf.vals, k) == z3.Select(od.vals, k)))),
+            z3.Implies(z3.Not(seen), z3.And(z3.Not(z3.Contains(dc.keys, u)), z3.Not(z3.Contains(rf.keys, u)))))
+
+    def havoc_collect(I, st):
+        for nm in ("params_to_deepcopy", "params_to_ref"):
+            h = st.heap[st.env[nm].oid]
+            h.keys = I.U.fresh_seq(nm + "_keys")
+            h.vals = z3.Const("%s_vals!%d" % (nm, I.new_oid()), z3.ArraySort(vm.V, vm.V))
+            h.ckeys = None
+            h.fields.pop("$entries", None)
+
+    def inv_deep(I, st, pre):
+        k = holder["k"]
+        dc, rf = dicts(I, st)
+        return z3.Implies(z3.Contains(pre.seq, z3.Unit(k)), z3.Select(st.ghost["called_deep"], z3.Select(dc.vals, k)))
+
+    def inv_refl(I, st, pre):
+        k = holder["k"]
+        dc, rf = dicts(I, st)
+        return z3.And(z3.Implies(z3.Contains(pre.seq, z3.Unit(k)), z3.Select(st.ghost["called_ref"], z3.Select(rf.vals, k))),
+                      z3.Implies(z3.Contains(dc.keys, z3.Unit(k)), z3.Select(st.ghost["called_deep"], z3.Select(dc.vals, k))))
+
+    def havoc_called(which):
+        def h(I, st):
+            st.ghost[which] = z3.Const("%s!%d" % (which, I.new_oid()), z3.ArraySort(vm.V, z3.BoolSort()))
+        return h
+
+    def post(I, info, st, oc):
+        U = I.U
+        k = holder["k"]
+        od = st.heap[info["od"].oid]
+        pk = z3.Select(od.vals, k)
+        inobj = z3.Contains(od.keys, z3.Unit(k))
+        out = []
+        origin = oc.origin if isinstance(oc, Raise) else None
+        # what is pinned on the instance happens before the keyword route and does not depend on it
+        if not isinstance(oc, Raise) or origin in ("setattr", "_resolve_ref") or oc.cls == "TypeError":
+            out.append(("C12/every instantiate=True parameter gets its own deep copy of the default (whatever the keywords are)",
+                        z3.Implies(z3.And(inobj, cond_deep(I, st, k)), z3.Select(st.ghost["called_deep"], pk))))
+            out.append(("C14/every constant parameter is pinned to the object it has at construction (whatever its default is)",
+                        z3.Implies(z3.And(inobj, cond_ref(I, st, k)), z3.Select(st.ghost["called_ref"], pk))))
+        if isinstance(oc, Raise):
+            return out
+        # keyword route (one keyword `x`)
+        res = st.ghost.get("resolved")
+        sets = st.ghost.get("sets", [])
+        if isinstance(oc, TupV) and len(oc.items) == 2 and res is not None:
+            refs, deps = oc.items
+            rd, dd = I.known_dict(st, refs), I.known_dict(st, deps)
+            ref, rdeps, resolved, is_async = res
+            px = z3.Select(od.vals, U.lit("x"))
+            allow = z3.And(z3.Contains(od.keys, z3.Unit(U.lit("x"))), px != U.NONE,
+                           vm.truthy(z3.Select(sym_field(I, st, "allow_refs"), px)))
+            linked = rd is not None and "x" in rd and rd["x"] is ref and dd is not None and dd.get("x") is rdeps
+            out.append(("C08/a reference given to the constructor is linked (recorded with its dependencies) even if it yields no value yet",
+                        z3.Implies(z3.And(allow, ref.t != U.NONE), z3.BoolVal(bool(linked)))))
+            novalue = z3.Or(resolved.t == U.UNDEF, resolved.t == U.cls_const("Skip"))
+            should_set = z3.And(is_async.t == U.FALSE, z3.Not(novalue))
+            did_set = len(sets) == 1 and sets[0] is resolved
+            out.append(("C01/the resolved keyword value is assigned through the descriptor exactly when it exists",
+                        z3.Implies(allow, z3.And(z3.Implies(should_set, z3.BoolVal(bool(did_set))),
+                                                 z3.Implies(z3.Not(should_set), z3.BoolVal(len(sets) == 0))))))
+        return out
+    loops = {
+        ("Parameters._setup_params", "objects.items()"): LoopSpec("objects.items()", inv=inv_collect, heap=havoc_collect, name="collect-params-to-pin"),
+        ("Parameters._setup_params", "params_to_deepcopy.values()"): LoopSpec("params_to_deepcopy.values()", inv=inv_deep, heap=havoc_called("called_deep"), name="deep-copy-each"),
+        ("Parameters._setup_params", "params_to_ref.values()"): LoopSpec("params_to_ref.values()", inv=inv_refl, heap=havoc_called("called_ref"), name="pin-each-constant"),
+    }
+    c = FunctionContract("%s:Parameters._setup_params" % MOD, ("C12", "C14", "C08", "C01"), setup, post, configure=configure,
+                         loops=loops, name="Parameters._setup_params")
+    c.clause_prefixes = prefixes
+    return c
+
+
+_c12_base = contracts
+
+
+def contracts():
+    return _c12_base() + [setup_params_contract(["C12/"])]
